@@ -27,9 +27,10 @@ func init() {
 }
 
 var (
-	c08R = randBytes(31, 70000)
-	c08T = textBytes(32, 70000)
-	c08A = bytes.Repeat([]byte{0xA5}, 1<<21+5)
+	c08R  = randBytes(31, 70000)
+	c08R2 = randBytes(37, 70000)
+	c08T  = textBytes(32, 70000)
+	c08A  = bytes.Repeat([]byte{0xA5}, 1<<21+5)
 )
 
 func c08Payload(op string, k int) []byte {
@@ -39,6 +40,11 @@ func c08Payload(op string, k int) []byte {
 	case "w0":
 		return []byte{}
 	case "wR":
+		// calls at odd positions write different bytes: "wR,wR" is 140 000 fresh incompressible
+		// bytes, "wR,x,wR" repeats the first buffer (a match source 70 000 bytes back)
+		if k%2 == 1 {
+			return c08R2
+		}
 		return c08R
 	case "wT":
 		return c08T
@@ -212,7 +218,7 @@ func runC08(r *core.Run) {
 	if th {
 		depth = 5
 	}
-	r.Rule = fmt.Sprintf("all call sequences up to length %d over {Write(10 B), Write(empty), Write(70000 incompressible), Write(70000 text), Flush, Close} x {DictCap 4096+BufSize 273, DictCap 65536, default 8 MiB (length<=3)} x both matchers; thorough adds Write(2 MiB+5 run) at depth<=3; plus deviation-bounded (<=2) placement of Flush / empty Write / Close inside 12 small writes. Oracle: after every Flush sink+0x00 decodes (library Reader2 AND reference) to all data written; empty Flush emits nothing; after Close full decode with both; calls after Close fail and emit nothing. states = writer states {open-empty, open-pending, closed}; transitions = (state, call class) and chunk-automaton steps of the outputs", depth)
+	r.Rule = fmt.Sprintf("all call sequences up to length %d over {Write(10 B), Write(empty), Write(70000 incompressible), Write(70000 text), Flush, Close} x {DictCap 4096+BufSize 273, DictCap 65536, default 8 MiB, DictCap+BufSize = 65536 / 67192 (length<=3)} x both matchers; thorough adds Write(2 MiB+5 run) at depth<=3; plus deviation-bounded (<=2) placement of Flush / empty Write / Close inside 12 small writes. Oracle: after every Flush sink+0x00 decodes (library Reader2 AND reference) to all data written; empty Flush emits nothing; after Close full decode with both; calls after Close fail and emit nothing. states = writer states {open-empty, open-pending, closed}; transitions = (state, call class) and chunk-automaton steps of the outputs", depth)
 	alpha := []string{"w10", "w0", "wR", "wT", "f", "c"}
 	var cases []C08Case
 	cfgs := []L2Cfg{{DictCap: 4096, BufSize: 273}, {DictCap: 65536}, {DictCap: 4096, BufSize: 273, Matcher: 1}, {DictCap: 65536, Matcher: 1}}
@@ -223,6 +229,10 @@ func runC08(r *core.Run) {
 				cases = append(cases, C08Case{Cfg: c, Hist: append([]string(nil), pref...)})
 			}
 			if len(pref) <= 3 {
+				// DictCap+BufSize just above one full incompressible chunk: the raw form of a chunk is only
+				// possible while its bytes are still resident
+				cases = append(cases, C08Case{Cfg: L2Cfg{DictCap: 4096, BufSize: 61440}, Hist: append([]string(nil), pref...)})
+				cases = append(cases, C08Case{Cfg: L2Cfg{DictCap: 59000, BufSize: 8192}, Hist: append([]string(nil), pref...)})
 				cases = append(cases, C08Case{Cfg: L2Cfg{}, Hist: append([]string(nil), pref...)})
 				cases = append(cases, C08Case{Cfg: L2Cfg{Props: true, LC: 0, LP: 4, PB: 0, DictCap: 4097, BufSize: 274}, Hist: append([]string(nil), pref...)})
 			}
